@@ -209,6 +209,8 @@ pub fn gen(prop: &str, seed: u64) -> Plan {
         "C08" => gen_c08(seed),
         "C10" => gen_c10(seed),
         "C07" => gen_c07(seed),
+        "C16" => gen_c16(seed),
+        "C11" => gen_c11(seed),
         "C01" => gen_byz(seed, "C01"),
         "C02" => gen_byz(seed, "C02"),
         "C06" => gen_byz(seed, "C06"),
@@ -682,4 +684,109 @@ fn gen_c07(seed: u64) -> Plan {
     }
     b.plan.flags = vec!["byz".into(), "checkpoints".into()];
     finish(b, until, 120_000)
+}
+
+/// fetch_header / fetch_transaction / get_transaction polled over time under honest-net faults.
+fn gen_c16(seed: u64) -> Plan {
+    let mut b = base("C16", seed, 160, 3);
+    connect_all(&mut b, 3_000);
+    let until = b.rng.range(40_000, 160_000);
+    growth(&mut b, until);
+    let allow_restart = b.rng.chance(1, 3);
+    honest_faults(&mut b, until, allow_restart, false);
+    let tip = b.plan.initial_blocks;
+    let side = b.rng.chance(1, 2);
+    if side {
+        // a stale sibling branch that nobody follows (its blocks exist, but are not on the chain)
+        let (at, back, n) = (b.rng.range(0, 5_000), b.rng.range(1, 6), b.rng.range(1, 6));
+        add(&mut b.plan, at, Action::SideFork { src: 0, back, n });
+    }
+    if b.rng.chance(2, 3) {
+        let scripts = random_scripts(&mut b, 3, tip);
+        let at = b.rng.range(0, 20_000);
+        add(&mut b.plan, at, Action::User(UserOp::SetScripts { cmd: SetCmd::All, scripts }));
+    }
+    let n_items = b.rng.range(2, 7);
+    for _ in 0..n_items {
+        let href = match b.rng.below(8) {
+            0 => HashRef::Bogus(b.rng.next_u64()),
+            1 | 2 if side => HashRef::Block { branch: 1, number: tip + 10 },
+            3 => HashRef::Block { branch: 0, number: tip + b.rng.range(0, 3) },
+            _ => HashRef::Block { branch: 0, number: b.rng.range(0, tip) },
+        };
+        let is_tx = b.rng.chance(1, 2);
+        let href = if is_tx {
+            match href {
+                HashRef::Block { branch, number } => HashRef::Tx { branch, number, k: b.rng.range(0, 2) },
+                x => x,
+            }
+        } else {
+            href
+        };
+        let mut t = b.rng.range(1_000, until / 2);
+        let polls = b.rng.range(2, 7);
+        for _ in 0..polls {
+            let op = if is_tx {
+                if b.rng.chance(1, 5) {
+                    UserOp::GetTransaction(href.clone())
+                } else {
+                    UserOp::FetchTransaction(href.clone())
+                }
+            } else {
+                UserOp::FetchHeader(href.clone())
+            };
+            add(&mut b.plan, t, Action::User(op));
+            t += b.rng.range(500, 30_000);
+        }
+    }
+    b.plan.flags = vec!["honest".into(), "fetch".into(), "expect_converge".into()];
+    finish(b, until, 200_000)
+}
+
+/// Random event orders: connects, disconnects, ticks, solicited / unsolicited / duplicated
+/// messages, clock positions around the 8 s and 60 s boundaries.
+fn gen_c11(seed: u64) -> Plan {
+    let mut b = base("C11", seed, 80, 3);
+    let np = b.plan.peers.len();
+    for p in 0..np {
+        // duplicated answers
+        for _ in 0..b.rng.range(0, 4) {
+            let kind = *b.rng.pick(&[0u32, 1, 2, 3]);
+            b.plan.peers[p].mutations.push(MutSpec { kind, ordinal: b.rng.below(6), op: 1000, seed: b.rng.next_u64() });
+        }
+    }
+    connect_all(&mut b, 20_000);
+    let until = b.rng.range(60_000, 250_000);
+    growth(&mut b, until);
+    if b.rng.chance(2, 3) {
+        let tip = b.plan.initial_blocks;
+        let scripts = random_scripts(&mut b, 2, tip);
+        let at = b.rng.range(0, 20_000);
+        add(&mut b.plan, at, Action::User(UserOp::SetScripts { cmd: SetCmd::All, scripts }));
+    }
+    for _ in 0..b.rng.range(2, 14) {
+        let at = b.rng.range(1_000, until);
+        let peer = b.rng.usize_below(np);
+        match b.rng.below(9) {
+            0 => add(&mut b.plan, at, Action::Stall { peer, ms: *b.rng.pick(&[7_000u64, 9_000, 59_000, 61_000, 70_000, 130_000]) }),
+            1 => add(&mut b.plan, at, Action::LoseAnswers { peer, n: b.rng.range(1, 3) }),
+            2 => {
+                add(&mut b.plan, at, Action::Disconnect { peer });
+                add(&mut b.plan, at + b.rng.range(100, 30_000), Action::Connect { peer });
+            }
+            3 => add(&mut b.plan, at, Action::ClockJump { ms: *b.rng.pick(&[7_900u64, 8_100, 52_000, 59_900, 60_100, 61_000]) }),
+            4 | 5 => add(&mut b.plan, at, Action::Inject { peer, spec: InjectSpec { seed: b.rng.next_u64(), kind: 2 } }),
+            6 => {
+                let number = b.rng.range(0, b.plan.initial_blocks);
+                add(&mut b.plan, at, Action::User(UserOp::FetchHeader(HashRef::Block { branch: 0, number })));
+            }
+            7 => {
+                let number = b.rng.range(0, b.plan.initial_blocks);
+                add(&mut b.plan, at, Action::User(UserOp::FetchTransaction(HashRef::Tx { branch: 0, number, k: 0 })));
+            }
+            _ => add(&mut b.plan, at, Action::Mine { branch: 0, n: b.rng.range(1, 3) }),
+        }
+    }
+    b.plan.flags = vec!["byz".into(), "statemachine".into()];
+    finish(b, until, 150_000)
 }
